@@ -301,6 +301,19 @@ func (m *ldMachine) genOp(rt *rapid.T, i int) ldOp {
 		return ldOp{K: "calc", U: m.userIdx(l.Owner)}
 	}
 	if cfg.Liq != nil {
+		// while a borrow is beyond its threshold keep the sweeps coming: liveness is about consecutive blocks
+		for _, b := range borrows {
+			if b.IsLiquidated {
+				continue
+			}
+			thr, _ := m.thresholdOf(b)
+			if m.ratioOf(b).Cmp(thr) > 0 {
+				if rapid.IntRange(0, 2).Draw(rt, lbl("sweep")) > 0 {
+					return ldOp{K: "block", Dt: rapid.SampledFrom([]int64{5, 6, 7}).Draw(rt, lbl("dt"))}
+				}
+				break
+			}
+		}
 		kinds = append(kinds, "crash", "crash", "crash", "block", "block", "liqmsg", "liqmsg", "bid", "bid", "bid")
 		if m.prop == "C10" {
 			kinds = append(kinds, "bid", "bid", "bid", "bid", "bid", "crash", "liqmsg")
